@@ -872,6 +872,389 @@ theorem fold_deletions (paths : List String) (hN : paths.Nodup) (rs : List Rec) 
   have := h.1 p
   rwa [liveAt_of_not_live hfree, List.nil_append] at this
 
+/-! ## part C: the bodies pint reads are the base and the HEAD versions -/
+
+def touches (r : Rec) (p : String) : Bool := r.src == p || r.dst == p
+def lastOf (cs : List Nat) : Nat := cs.getLast?.getD 0
+def firstOf (cs : List Nat) : Nat := cs.head?.getD 0
+
+/-- what the processed part of the history (`done`, latest commit `K`) says about every file of the tree -/
+structure HInv (t : Tree) (done : List Rec) (K : Nat) : Prop where
+  bounded : ∀ r ∈ done, r.commit ≤ K
+  chainLe : ∀ f ∈ t.live ++ t.dead, ∀ c ∈ f.commits, c ≤ K
+  chainFrom : ∀ f ∈ t.live ++ t.dead, ∀ c ∈ f.commits, ∃ r ∈ done, r.commit = c
+  deadTouched : ∀ f ∈ t.dead, f.commits ≠ []
+  /-- a record that touches the path of a live file is not later than the file's last commit -/
+  liveLast : ∀ f ∈ t.live, ∀ r ∈ done, touches r f.path = true → f.commits ≠ [] ∧ r.commit ≤ lastOf f.commits
+  /-- a record that touches the base path a file comes from is not earlier than the file's first commit -/
+  origFirst : ∀ f ∈ t.live ++ t.dead, f.origin ≠ "" → ∀ r ∈ done, touches r f.origin = true →
+    f.commits ≠ [] ∧ firstOf f.commits ≤ r.commit
+
+theorem lastOf_append (cs : List Nat) (c : Nat) : lastOf (cs ++ [c]) = c := by simp [lastOf]
+
+theorem firstOf_append (cs : List Nat) (c : Nat) : firstOf (cs ++ [c]) = if cs = [] then c else firstOf cs := by
+  cases cs <;> simp [firstOf]
+
+theorem firstOf_mem {cs : List Nat} (h : cs ≠ []) : firstOf cs ∈ cs := by
+  cases cs with
+  | nil => exact absurd rfl h
+  | cons x xs => simp [firstOf]
+
+/-- the generic step: one file `nf` is new (built from `old`, if any, plus the record's commit), everything else is
+as before, and the record touches no other live path -/
+theorem hinv_step {t t' : Tree} {done : List Rec} {K : Nat} {r : Rec} (hH : HInv t done K) (hK : K ≤ r.commit)
+    (hT' : TInv t') (nf : TFile) (old : Option TFile)
+    (hold : ∀ o, old = some o → o ∈ t.live ++ t.dead)
+    (hcommits : nf.commits = ((old.map (·.commits)).getD []) ++ [r.commit])
+    (horigin : nf.origin = (old.map (·.origin)).getD "")
+    (hlive' : ∀ g ∈ t'.live, g = nf ∨ g ∈ t.live)
+    (hdead' : ∀ g ∈ t'.dead, g = nf ∨ g ∈ t.dead)
+    (hothers : ∀ g ∈ t'.live, g ≠ nf → touches r g.path = false) :
+    HInv t' (done ++ [r]) r.commit := by
+  have hnfne : nf.commits ≠ [] := by rw [hcommits]; simp
+  have hnfle : ∀ c ∈ nf.commits, c ≤ r.commit := by
+    intro c hc
+    rw [hcommits] at hc
+    rcases List.mem_append.mp hc with h | h
+    · cases ho : old with
+      | none => simp [ho] at h
+      | some o =>
+        simp only [ho, Option.map_some, Option.getD_some] at h
+        exact Nat.le_trans (hH.chainLe o (hold o ho) c h) hK
+    · have : c = r.commit := by simpa using h
+      omega
+  have hnffrom : ∀ c ∈ nf.commits, ∃ r' ∈ done ++ [r], r'.commit = c := by
+    intro c hc
+    rw [hcommits] at hc
+    rcases List.mem_append.mp hc with h | h
+    · cases ho : old with
+      | none => simp [ho] at h
+      | some o =>
+        simp only [ho, Option.map_some, Option.getD_some] at h
+        obtain ⟨r', hr', hrc⟩ := hH.chainFrom o (hold o ho) c h
+        exact ⟨r', List.mem_append.mpr (Or.inl hr'), hrc⟩
+    · have : c = r.commit := by simpa using h
+      exact ⟨r, by simp, this.symm⟩
+  refine ⟨?_, ?_, ?_, ?_, ?_, ?_⟩
+  · intro r' hr'
+    rcases List.mem_append.mp hr' with h | h
+    · exact Nat.le_trans (hH.bounded r' h) hK
+    · have : r' = r := by simpa using h
+      subst this; exact Nat.le_refl _
+  · intro g hg c hc
+    rcases List.mem_append.mp hg with hgl | hgd
+    · rcases hlive' g hgl with rfl | h
+      · exact hnfle c hc
+      · exact Nat.le_trans (hH.chainLe g (List.mem_append.mpr (Or.inl h)) c hc) hK
+    · rcases hdead' g hgd with rfl | h
+      · exact hnfle c hc
+      · exact Nat.le_trans (hH.chainLe g (List.mem_append.mpr (Or.inr h)) c hc) hK
+  · intro g hg c hc
+    have lift : ∀ g', g' ∈ t.live ++ t.dead → c ∈ g'.commits → ∃ r' ∈ done ++ [r], r'.commit = c := by
+      intro g' hg' hc'
+      obtain ⟨r', hr', hrc⟩ := hH.chainFrom g' hg' c hc'
+      exact ⟨r', List.mem_append.mpr (Or.inl hr'), hrc⟩
+    rcases List.mem_append.mp hg with hgl | hgd
+    · rcases hlive' g hgl with rfl | h
+      · exact hnffrom c hc
+      · exact lift g (List.mem_append.mpr (Or.inl h)) hc
+    · rcases hdead' g hgd with rfl | h
+      · exact hnffrom c hc
+      · exact lift g (List.mem_append.mpr (Or.inr h)) hc
+  · intro g hg
+    rcases hdead' g hg with rfl | h
+    · exact hnfne
+    · exact hH.deadTouched g h
+  · intro g hg r' hr' ht
+    rcases hlive' g hg with rfl | h
+    · refine ⟨hnfne, ?_⟩
+      rw [hcommits, lastOf_append]
+      rcases List.mem_append.mp hr' with h' | h'
+      · exact Nat.le_trans (hH.bounded r' h') hK
+      · have : r' = r := by simpa using h'
+        subst this; exact Nat.le_refl _
+    · by_cases hgn : g = nf
+      · subst hgn
+        refine ⟨hnfne, ?_⟩
+        rw [hcommits, lastOf_append]
+        rcases List.mem_append.mp hr' with h' | h'
+        · exact Nat.le_trans (hH.bounded r' h') hK
+        · have : r' = r := by simpa using h'
+          subst this; exact Nat.le_refl _
+      · rcases List.mem_append.mp hr' with h' | h'
+        · exact hH.liveLast g h r' h' ht
+        · have : r' = r := by simpa using h'
+          subst this
+          rw [hothers g hg hgn] at ht; exact absurd ht (by simp)
+  · intro g hg hgo r' hr' ht
+    -- is g the new file?
+    have hcase : g = nf ∨ g ∈ t.live ++ t.dead := by
+      rcases List.mem_append.mp hg with hgl | hgd
+      · rcases hlive' g hgl with h | h
+        · exact Or.inl h
+        · exact Or.inr (List.mem_append.mpr (Or.inl h))
+      · rcases hdead' g hgd with h | h
+        · exact Or.inl h
+        · exact Or.inr (List.mem_append.mpr (Or.inr h))
+    rcases List.mem_append.mp hr' with h' | h'
+    · -- an earlier record
+      rcases hcase with rfl | hold'
+      · cases ho : old with
+        | none => rw [horigin, ho] at hgo; simp at hgo
+        | some o =>
+          have hoo : g.origin = o.origin := by rw [horigin, ho]; rfl
+          have hinv := hH.origFirst o (hold o ho) (by rw [← hoo]; exact hgo) r' h' (by rw [← hoo]; exact ht)
+          refine ⟨hnfne, ?_⟩
+          rw [hcommits, ho]
+          simp only [Option.map_some, Option.getD_some, firstOf_append, hinv.1, if_false]
+          exact hinv.2
+      · exact hH.origFirst g hold' hgo r' h' ht
+    · -- the record just processed
+      have : r' = r := by simpa using h'
+      subst this
+      by_cases hgn : g = nf
+      · subst hgn
+        exact ⟨hnfne, hnfle _ (firstOf_mem hnfne)⟩
+      · rcases hcase with h | hold'
+        · exact absurd h hgn
+        · by_cases hgc : g.commits = []
+          · -- an untouched file is live and sits at its base path: the record cannot touch it
+            exfalso
+            have hgl : g ∈ t'.live := by
+              rcases List.mem_append.mp hg with hgl | hgd
+              · exact hgl
+              · rcases hdead' g hgd with h | h
+                · exact absurd h hgn
+                · exact absurd hgc (hH.deadTouched g h)
+            have hfresh := hT'.fresh g hgl (by simp [touched, hgc])
+            have := hothers g hgl hgn
+            rw [hfresh.1] at ht
+            rw [this] at ht; exact absurd ht (by simp)
+          · exact ⟨hgc, Nat.le_trans (hH.chainLe g hold' _ (firstOf_mem hgc)) hK⟩
+
+theorem not_touches_of_ne {r : Rec} {p : String} (h1 : r.src ≠ p) (h2 : r.dst ≠ p) : touches r p = false := by
+  simp [touches, h1, h2]
+
+theorem path_ne_of_atPath_false {p : String} {g : TFile} (h : atPath p g = false) : p ≠ g.path := by
+  intro e; simp [atPath, e] at h
+
+/-- the shape of `applyRec` for records that move a live file (M, T, R) -/
+theorem hist_move {cs : List Chg} {t : Tree} {done : List Rec} {K : Nat} (hT : TInv t) (hH : HInv t done K)
+    {r : Rec} {f : TFile} (hf : t.live.find? (atPath r.src) = some f) (hK : K ≤ r.commit)
+    (hdst : r.dst = r.src ∨ t.live.any (atPath r.dst) = false)
+    (hT' : TInv { live := touch r.commit r.st r.dst f :: t.live.eraseP (atPath r.src), dead := t.dead }) :
+    HInv { live := touch r.commit r.st r.dst f :: t.live.eraseP (atPath r.src), dead := t.dead } (done ++ [r]) r.commit := by
+  have hfm : f ∈ t.live := List.mem_of_find?_eq_some hf
+  refine hinv_step hH hK hT' (touch r.commit r.st r.dst f) (some f) ?_ rfl rfl ?_ ?_ ?_
+  · intro o ho; have : o = f := by simpa using ho.symm
+    subst this; exact List.mem_append.mpr (Or.inl hfm)
+  · intro g hg
+    rcases List.mem_cons.mp hg with h | h
+    · exact Or.inl h
+    · exact Or.inr (mem_eraseP_mem h)
+  · intro g hg; exact Or.inr hg
+  · intro g hg hne
+    rcases List.mem_cons.mp hg with h | h
+    · exact absurd h hne
+    · have h1 : r.src ≠ g.path := path_ne_of_atPath_false (erase_none_left hT.uniq hf g h)
+      have h2 : r.dst ≠ g.path := by
+        rcases hdst with hd | hd
+        · rw [hd]; exact h1
+        · exact path_ne_of_atPath_false (any_atPath_false hd g (mem_eraseP_mem h))
+      exact not_touches_of_ne h1 h2
+
+theorem hist_delete {t : Tree} {done : List Rec} {K : Nat} (hT : TInv t) (hH : HInv t done K)
+    {r : Rec} {f : TFile} (hf : t.live.find? (atPath r.src) = some f) (hK : K ≤ r.commit) (hdst : r.dst = r.src)
+    (hT' : TInv { live := t.live.eraseP (atPath r.src), dead := touch r.commit .D r.dst f :: t.dead }) :
+    HInv { live := t.live.eraseP (atPath r.src), dead := touch r.commit .D r.dst f :: t.dead } (done ++ [r]) r.commit := by
+  have hfm : f ∈ t.live := List.mem_of_find?_eq_some hf
+  refine hinv_step hH hK hT' (touch r.commit .D r.dst f) (some f) ?_ rfl rfl ?_ ?_ ?_
+  · intro o ho; have : o = f := by simpa using ho.symm
+    subst this; exact List.mem_append.mpr (Or.inl hfm)
+  · intro g hg; exact Or.inr (mem_eraseP_mem hg)
+  · intro g hg
+    rcases List.mem_cons.mp hg with h | h
+    · exact Or.inl h
+    · exact Or.inr h
+  · intro g hg _
+    have h1 : r.src ≠ g.path := path_ne_of_atPath_false (erase_none_left hT.uniq hf g hg)
+    exact not_touches_of_ne h1 (by rw [hdst]; exact h1)
+
+theorem hist_add {t : Tree} {done : List Rec} {K : Nat} (hH : HInv t done K) {r : Rec} (hK : K ≤ r.commit)
+    (hst : r.st = .A) (hfree : t.live.any (atPath r.dst) = false) (hsrc : r.src = r.dst)
+    (hT' : TInv (applyRec t r)) : HInv (applyRec t r) (done ++ [r]) r.commit := by
+  have hothers : ∀ g ∈ t.live, touches r g.path = false := fun g hg => by
+    have h2 : r.dst ≠ g.path := path_ne_of_atPath_false (any_atPath_false hfree g hg)
+    exact not_touches_of_ne (by rw [hsrc]; exact h2) h2
+  cases hd : t.dead.find? (atPath r.dst) with
+  | some d =>
+    have happ : applyRec t r = { live := touch r.commit .A r.dst d :: t.live, dead := t.dead.eraseP (atPath r.dst) } := by
+      simp [applyRec, hst, hd]
+    rw [happ] at hT' ⊢
+    refine hinv_step hH hK hT' (touch r.commit .A r.dst d) (some d) ?_ rfl rfl ?_ ?_ ?_
+    · intro o ho; have : o = d := by simpa using ho.symm
+      subst this; exact List.mem_append.mpr (Or.inr (List.mem_of_find?_eq_some hd))
+    · intro g hg
+      rcases List.mem_cons.mp hg with h | h
+      · exact Or.inl h
+      · exact Or.inr h
+    · intro g hg; exact Or.inr (mem_eraseP_mem hg)
+    · intro g hg hne
+      rcases List.mem_cons.mp hg with h | h
+      · exact absurd h hne
+      · exact hothers g h
+  | none =>
+    have happ : applyRec t r = { live := { path := r.dst, origin := "", commits := [r.commit], st := .A } :: t.live, dead := t.dead } := by
+      simp [applyRec, hst, hd]
+    rw [happ] at hT' ⊢
+    refine hinv_step hH hK hT' { path := r.dst, origin := "", commits := [r.commit], st := .A } none ?_ rfl rfl ?_ ?_ ?_
+    · intro o ho; simp at ho
+    · intro g hg
+      rcases List.mem_cons.mp hg with h | h
+      · exact Or.inl h
+      · exact Or.inr h
+    · intro g hg; exact Or.inr hg
+    · intro g hg hne
+      rcases List.mem_cons.mp hg with h | h
+      · exact absurd h hne
+      · exact hothers g h
+
+/-- one record keeps the history invariant -/
+theorem hist_step {cs : List Chg} {t : Tree} {done : List Rec} {K : Nat} (hI : Inv cs t) (hT : TInv t) (hH : HInv t done K)
+    {r : Rec} (ha : applicable t r = true) (hK : K ≤ r.commit) : HInv (applyRec t r) (done ++ [r]) r.commit := by
+  have hT' := (step_preserves hI hT ha).2
+  cases hst : r.st with
+  | A =>
+    simp only [applicable, hst, Bool.and_eq_true, Bool.not_eq_true', beq_iff_eq] at ha
+    exact hist_add hH hK hst ha.1.1 ha.1.2 hT'
+  | C => simp [applicable, hst] at ha
+  | D =>
+    simp only [applicable, hst, Bool.and_eq_true, beq_iff_eq] at ha
+    obtain ⟨f, hf⟩ := exists_find_of_any ha.1
+    have happ : applyRec t r = { live := t.live.eraseP (atPath r.src), dead := touch r.commit .D r.dst f :: t.dead } := by
+      simp [applyRec, hst, hf]
+    rw [happ] at hT' ⊢
+    exact hist_delete hT hH hf hK ha.2.symm hT'
+  | M =>
+    simp only [applicable, hst, Bool.and_eq_true, beq_iff_eq] at ha
+    obtain ⟨f, hf⟩ := exists_find_of_any ha.1
+    have happ : applyRec t r = { live := touch r.commit r.st r.dst f :: t.live.eraseP (atPath r.src), dead := t.dead } := by
+      simp [applyRec, hst, hf]
+    rw [happ] at hT' ⊢
+    exact hist_move (cs := cs) hT hH hf hK (Or.inl ha.2.symm) hT'
+  | T =>
+    simp only [applicable, hst, Bool.and_eq_true, beq_iff_eq] at ha
+    obtain ⟨f, hf⟩ := exists_find_of_any ha.1
+    have happ : applyRec t r = { live := touch r.commit r.st r.dst f :: t.live.eraseP (atPath r.src), dead := t.dead } := by
+      simp [applyRec, hst, hf]
+    rw [happ] at hT' ⊢
+    exact hist_move (cs := cs) hT hH hf hK (Or.inl ha.2.symm) hT'
+  | R =>
+    simp only [applicable, hst, Bool.and_eq_true, Bool.not_eq_true'] at ha
+    obtain ⟨f, hf⟩ := exists_find_of_any ha.1.1
+    have happ : applyRec t r = { live := touch r.commit r.st r.dst f :: t.live.eraseP (atPath r.src), dead := t.dead } := by
+      simp [applyRec, hst, hf]
+    rw [happ] at hT' ⊢
+    exact hist_move (cs := cs) hT hH hf hK (Or.inr ha.1.2) hT'
+
+/-- commits do not decrease along the record list (git log --reverse) -/
+def SortedFrom : Nat → List Rec → Prop
+  | _, [] => True
+  | K, r :: rs => K ≤ r.commit ∧ SortedFrom r.commit rs
+
+theorem hist_run : ∀ (rs : List Rec) (cs : List Chg) (t : Tree) (done : List Rec) (K : Nat),
+    Inv cs t → TInv t → HInv t done K → WF t rs → SortedFrom K rs →
+    ∃ K', HInv (run t rs) (done ++ rs) K' ∧ TInv (run t rs) ∧ Inv (rs.foldl step cs) (run t rs)
+  | [], cs, t, done, K, hI, hT, hH, _, _ => ⟨K, by simpa [run] using hH, hT, hI⟩
+  | r :: rs, cs, t, done, K, hI, hT, hH, hW, hS => by
+    have h1 := step_preserves hI hT hW.1
+    have h2 := hist_step hI hT hH hW.1 hS.1
+    obtain ⟨K', h3, h4, h5⟩ := hist_run rs (step cs r) (applyRec t r) (done ++ [r]) r.commit h1.1 h1.2 h2 hW.2 hS.2
+    exact ⟨K', by simpa [run, List.append_assoc] using h3, h4, h5⟩
+
+theorem base_hinv (paths : List String) : HInv (baseTree paths) [] 0 := by
+  have hempty : ∀ f ∈ (baseTree paths).live ++ (baseTree paths).dead, f.commits = [] := by
+    intro f hf
+    simp only [baseTree, List.append_nil, List.mem_map] at hf
+    obtain ⟨p, _, rfl⟩ := hf
+    rfl
+  refine ⟨by simp, ?_, ?_, by simp [baseTree], by simp, by simp⟩
+  · intro f hf c hc; rw [hempty f hf] at hc; simp at hc
+  · intro f hf c hc; rw [hempty f hf] at hc; simp at hc
+
+/-- the content of the paths as git would show them at each commit: a path's content only changes in a commit whose
+name-status lists it -/
+def Stable (rs : List Rec) (content : Nat → String → Option Nat) : Prop :=
+  ∀ a b p, a ≤ b → (∀ r ∈ rs, a < r.commit → r.commit ≤ b → touches r p = false) → content a p = content b p
+
+/-- **C03, bodies**: for every well-formed history in commit order (commits numbered from 1, HEAD = commit `N`), and
+every file `f` of the HEAD tree that the branch touched, with `c = toChg f` the change pint holds for it:
+the *after* body pint reads (`c.after` at the last commit of `c`) is the file's content at HEAD, and, when the file
+descends from a base path, the *before* body (`c.before` at the parent of the first commit of `c`) is the base
+content of that path (commit 0). -/
+theorem bodies_are_base_and_head (paths : List String) (hN : paths.Nodup) (rs : List Rec) (hW : WF (baseTree paths) rs)
+    (hS : SortedFrom 1 rs) (content : Nat → String → Option Nat) (hC : Stable rs content) (N : Nat)
+    (hNmax : ∀ r ∈ rs, r.commit ≤ N) :
+    ∀ f ∈ (run (baseTree paths) rs).live, touched f = true →
+      content (lastOf (toChg f).commits) (toChg f).after = content N f.path ∧
+      ((toChg f).before ≠ "" → content (firstOf (toChg f).commits - 1) (toChg f).before = content 0 f.origin) := by
+  have hb := base_inv paths hN
+  have hS0 : SortedFrom 0 rs := by
+    cases rs with
+    | nil => trivial
+    | cons r rs => exact ⟨Nat.zero_le _, hS.2⟩
+  obtain ⟨K', hH, _, _⟩ := hist_run rs [] (baseTree paths) [] 0 hb.1 hb.2 (base_hinv paths) hW hS0
+  simp only [List.nil_append] at hH
+  intro f hf ht
+  have hne : f.commits ≠ [] := by
+    intro e; simp [touched, e] at ht
+  have hfm : f ∈ (run (baseTree paths) rs).live ++ (run (baseTree paths) rs).dead := List.mem_append.mpr (Or.inl hf)
+  have all1 : ∀ (l : List Rec) (k : Nat), 1 ≤ k → SortedFrom k l → ∀ x ∈ l, 1 ≤ x.commit := by
+    intro l
+    induction l with
+    | nil => intro _ _ _ x hx; simp at hx
+    | cons y ys ih =>
+      intro k hk hs x hx
+      rcases List.mem_cons.mp hx with rfl | hx'
+      · exact Nat.le_trans hk hs.1
+      · exact ih y.commit (Nat.le_trans hk hs.1) hs.2 x hx'
+  constructor
+  · -- nothing after the chain's last commit touches the path
+    simp only [toChg]
+    have hmem : lastOf f.commits ∈ f.commits := by
+      unfold lastOf
+      cases hl : f.commits.getLast? with
+      | none => simp [List.getLast?_eq_none_iff] at hl; exact absurd hl hne
+      | some x => simpa using List.mem_of_getLast? hl
+    obtain ⟨r0, hr0, hr0c⟩ := hH.chainFrom f hfm _ hmem
+    have hle : lastOf f.commits ≤ N := by rw [← hr0c]; exact hNmax r0 hr0
+    apply hC _ _ _ hle
+    intro r hr hlt _
+    cases htr : touches r f.path with
+    | false => rfl
+    | true =>
+      have := (hH.liveLast f hf r hr htr).2
+      omega
+  · -- nothing before the chain's first commit touches the base path
+    intro hbefore
+    simp only [toChg] at hbefore ⊢
+    symm
+    apply hC 0 (firstOf f.commits - 1) f.origin (Nat.zero_le _)
+    intro r hr _ hle
+    cases htr : touches r f.origin with
+    | false => rfl
+    | true =>
+      have h2 := (hH.origFirst f hfm hbefore r hr htr).2
+      obtain ⟨r1, hr1, hr1c⟩ := hH.chainFrom f hfm _ (firstOf_mem hne)
+      have : 1 ≤ r1.commit := all1 rs 1 (Nat.le_refl 1) hS r1 hr1
+      omega
+
+/-- the hypotheses of `bodies_are_base_and_head` are met by a concrete history (commit order, a content function
+that changes `b` in commits 1–3 and `a` in commit 2 only) -/
+example : SortedFrom 1 [ ({ commit := 1, st := .D, src := "b", dst := "b" } : Rec),
+    { commit := 2, st := .R, src := "a", dst := "b" }, { commit := 3, st := .M, src := "b", dst := "b" } ] := by
+  simp [SortedFrom]
+
 /-! the code before the fix: delete `b`, rename `a` to `b`, edit `b` -/
 def reuseHistory : List Rec :=
   [ { commit := 1, st := .D, src := "b", dst := "b" },
